@@ -11,6 +11,7 @@ PROP = 'C04'
 LEAN_MODULES = ['Glom.Props.C04']
 FACT_FILES = ['ExcFacts', 'C04Facts', 'c04']
 READY = True
+THEOREMS_PER_MODULE = {'Glom.Props.C04': 19}
 MANIFEST = dict(
     text="Lean 4 theorems over a code-shaped model of glom()'s keyword defaulting, its two nested try blocks, "
          "copy.copy of GlomErrors and GlomError.wrap: for EVERY exception class (any MRO, any constructor "
@@ -312,8 +313,8 @@ def run_impl(case):
         impl['origin'] = {'internal': type(rec.seen).__name__, 'args': codec.enc_args(rec.seen.args)}
     if raised:
         impl['obs'] = {'raised': {'mro': mro_names(type(res)), 'args': codec.enc_args(res.args),
-                                  'same': res is origin_obj,
-                                  'instOrig': isinstance(res, type(origin_obj)),
+                                  'sameInj': res is orig, 'instInj': isinstance(res, type(orig)),
+                                  'sameRec': res is origin_obj, 'instRec': isinstance(res, type(origin_obj)),
                                   'instGlom': isinstance(res, glom.GlomError)}}
     else:
         impl['obs'] = {'returned': 'default' if ret is sentinel else 'none' if ret is None else 'value'}
@@ -626,6 +627,27 @@ def corpus():
         mk_case([{'name': 'Falsy', 'base': 'KeyError', 'shape': None, 'falsy': True}],
                 {'cls': 'Falsy', 'init': [{'s': 'k'}], 'kw': False, 'set_args': None},
                 {'tup': ['ok', {'dct': ['fault']}]}, none),
+    ]
+    # the counter-examples that justify the hypotheses of the theorems (Props/C04.lean), on the real glom
+    key_err = {'cls': 'KeyError', 'init': [{'s': 'k'}], 'kw': False, 'set_args': None}
+    out += [
+        # c04_glomerror without `rebuildable`: U(a, b) stores (a,) -> the original leaves, not a GlomError
+        mk_case([{'name': 'U', 'base': 'Exception', 'shape': {'sig': [2, 2, False, {'pre': 1}]}, 'falsy': False}],
+                {'cls': 'U', 'init': [{'i': 1}, {'i': 2}], 'kw': False, 'set_args': None}, 'fault', none),
+        # … without `Exception`: a KeyboardInterrupt subclass is never wrapped
+        mk_case([{'name': 'KI', 'base': 'KeyboardInterrupt', 'shape': None, 'falsy': False}],
+                {'cls': 'KI', 'init': [{'i': 1}], 'kw': False, 'set_args': None}, 'fault', none),
+        # … without `debug off`
+        mk_case([], key_err, 'fault', dict(none, debug=True)),
+        # c04_debug_identity / c04_baseexception_untouched without `selected = false`
+        mk_case([{'name': 'KI', 'base': 'KeyboardInterrupt', 'shape': None, 'falsy': False}],
+                {'cls': 'KI', 'init': [{'i': 1}], 'kw': False, 'set_args': None}, 'fault',
+                {'default': True, 'skip': ['KI'], 'skip_tuple': False, 'debug': True}),
+        # c04_plain_frames without the StopIteration clause: First's key raising StopIteration ends the iteration
+        mk_case([], {'cls': 'StopIteration', 'init': [{'i': 3}], 'kw': False, 'set_args': None},
+                {'first': 'fault'}, none, recorder=True),
+        # … without `PreOk`: an earlier sibling fails first
+        mk_case([], key_err, {'tup': ['badPath', 'fault']}, none),
     ]
     p = os.path.join(os.path.dirname(os.path.dirname(os.path.dirname(os.path.abspath(__file__)))),
                      'corpus', 'C04.jsonl')
